@@ -17,10 +17,10 @@ def setup():
 
 
 def gen_cases(prop, tier, seed):
-    reps = {"quick": 1, "thorough": 12}[tier]
+    reps = {"quick": 3, "thorough": 24}[tier]
     cases = []
     for name, e in POOL.items():
-        r = max(1, reps // e.slow) if tier == "thorough" else 1
+        r = max(1, reps // e.slow)
         for cm in poolcase.cmodes_for(e):
             for b in gen.BATCH_REGIMES:
                 for i in range(r):
